@@ -8,7 +8,7 @@ F7_WHAT = "empty control-point list computed on buffers that hold a previous pat
 
 class C16(Property):
     id = "C16"
-    lean_module = "RosuModel.Props.C16"
+    lean_module = "RosuModel.Props.C16Surplus"   # imports Props/C16Exact.lean and Props/C16.lean; all in namespace Rosu.C16
     namespace = "Rosu.C16"
     design_ref = "5.16"
     level_text = (
@@ -26,6 +26,17 @@ class C16(Property):
         "the re-projected end point is p_k + (p_{k+1}-p_k)*t with t = (L-len_k)/|p_{k+1}-p_k| - this is cut_on_segment and extension_collinear in one formula; "
         "cut_param_range + natLens_step (OrdLaws; Int): 0 < L-len_k <= len_{k+1}-len_k, and len_{k+1}-len_k is the segment's own length for every segment "
         "but the first, whose booked length also carries optimized_len (that is finding F12). "
+        "Props/C16Exact.lean states the exact-arithmetic part ONCE for every scalar satisfying the ordered-field law structure ExactArith (Lemmas/ExactArith.lean: the Scalar "
+        "operations are those of a linearly ordered field through an embedding; satisfiable on Rat - exactArith_rat - and on the reals - exactArith_real) and about calculateLength itself: "
+        "monoLaws_of_exact / sumLaws_of_exact / rayLaws_of_exact / ordLaws_of_exact (the four per-theorem law lists all follow from ExactArith, so lengths_monotone, "
+        "catmull_simplify_preserves_length, end_point_on_ray, cut_param_range hold on one and the same instance); calculateLength_lengths_monotone (the lengths calculate_length RETURNS never "
+        "decrease, all five outcomes, for optimized_len >= 0); calculateLength_end_on_ray (in the cut/extension outcome the returned path is the first k natural points followed by "
+        "p_k + (p_{k+1}-p_k)*t, t = (L-len_k)/|p_{k+1}-p_k|, lengths = first k natural ones ++ [L], len_k < L); end_point_distance (+ SqrtLaws: that point is exactly L-len_k from p_k, squared "
+        "form, unless the segment has zero length - F11). "
+        "Props/C16Surplus.lean (+ SqrtLaws, satisfiable on the reals): distance_triangle (the model's own Pos::distance satisfies the triangle inequality: Cauchy-Schwarz in an ordered field), "
+        "catmullSimplify_surplus_nonneg = surplus_nonneg (the osu!-mode simplification never decreases optimized_len: what it removes between two kept points is at least their straight "
+        "distance; loop invariant SurpInv), calculatePath_optLen_nonneg (calculate_path hands calculate_length an optimized_len >= 0, every mode / control points / fuel / buffers) and "
+        "new_lengths_monotone: the cumulative lengths of EVERY curve Curve::new builds never decrease. "
         "Model tied to the code bit-for-bit on every run; IEEE monotonicity/finiteness and the float-level geometry are evaluated on the real code by an "
         "oracle written from the property text.")
     technique = "Lean 4 proof (case analysis of the mirrored control flow, generic arithmetic) + bit-exact differential correspondence"
@@ -35,9 +46,16 @@ class C16(Property):
                          "lengths_path_aligned", "new_is_calculateLength", "new_lengths_head_zero", "lengths_monotone", "monoLaws_int",
                          "cutIdx_pos_of_pos", "lastValid_le", "lastValid_eq_zero_iff",
                          "catmull_simplify_preserves_length", "simplifyLoop_inv", "simplifyLoop_fin", "natTotal_snoc", "natTotal_shift",
-                         "sumLaws_int", "end_point_on_ray", "rayLaws_rat", "cut_param_range", "natLens_step", "cumLens_step", "ordLaws_int"]
+                         "sumLaws_int", "end_point_on_ray", "rayLaws_rat", "cut_param_range", "natLens_step", "cumLens_step", "ordLaws_int",
+                         # Props/C16Exact.lean
+                         "monoLaws_of_exact", "sumLaws_of_exact", "rayLaws_of_exact", "ordLaws_of_exact", "mono_iff", "natLens_mono",
+                         "calculateLength_lengths_monotone", "calculateLength_end_on_ray", "end_point_distance", "toy_cut_hyps",
+                         # Props/C16Surplus.lean
+                         "root_triangle", "distance_triangle", "simplifyStep_surplus", "simplifyLoop_surplus",
+                         "catmullSimplify_surplus_nonneg", "calculateSubpath_optLen", "segBody_optLen", "segFold_optLen",
+                         "calculatePath_optLen_nonneg", "new_lengths_monotone"]
     partial_theorems = {
-        "lengths_monotone": "proved in exact arithmetic only (hypotheses MonoLaws: segment lengths >= 0, a <= a + x for x >= 0; instantiated on Int); IEEE monotonicity 'beyond 1e-5' and finiteness are tested by the harness oracle, not proved (finiteness fails: F11, F13)",
+        "lengths_monotone": "proved in exact arithmetic only: for every scalar satisfying ExactArith (instances Rat, reals; also the older MonoLaws on Int), both for the natural running sums (lengths_monotone) and for what calculate_length returns in all five outcomes (calculateLength_lengths_monotone, hypothesis optimized_len >= 0) and, with sqrt a square root (SqrtLaws; reals), for every curve Curve::new builds (new_lengths_monotone via surplus_nonneg = catmullSimplify_surplus_nonneg / calculatePath_optLen_nonneg); IEEE monotonicity 'beyond 1e-5' and finiteness are tested by the harness oracle, not proved (finiteness fails: F11, F13)",
         "catmull_simplify_preserves_length": "proved in exact arithmetic only (SumLaws, instantiated on Int); in IEEE the surplus is accumulated with rounding (it can even be negative by ~5e-7) - tested: natural dist in osu! mode vs the unsimplified curve's dist, 1e-5 relative",
         "end_point_on_ray / cut_param_range (cut_on_segment, extension_collinear)": "proved in exact arithmetic only (RayLaws on Rat, OrdLaws on Int); t <= 1 for a cut holds for every segment but the first when optimized_len > 0 (F12); the float-level statement (end point on the segment's line at distance L - len_k, within slack) is tested by the oracle; F11 (zero-length segment, division by zero) is outside the laws' domain (|v| = 0)",
         "dist_exact": "the property says 'exactly L' for every L > 0; the code keeps the natural length when |natural - L| < f64::EPSILON (hypothesis `near = false`); the oracle accepts that case explicitly (reported as OK near-natural)",
